@@ -14,30 +14,7 @@ ASSUMPTIONS = ['the tokio runtime (select! on a cancellation token) is judged by
                'the replay reorders exactly that pair']
 
 
-def run(ctx):
-    rng = ctx.rng
-    n = 1500 if ctx.tier == 'thorough' else 48 * ctx.scale
-    lines = []
-    if ctx.replay:
-        lines, n = [ctx.replay['case']['line']], 0
-    for i in range(n):
-        threads = rng.choice([1, 1, 2, 4, 8])
-        k = rng.choice([0, 1, 2, 3, 5, 8, 16])
-        states = ''.join(rng.choice('JIHSLW' if threads > 1 else 'JIHSL') for _ in range(k)) or '-'
-        if i % 7 == 0 and threads <= 2:
-            states = ('L' * (threads + rng.randint(0, 2))) + 'S'          # saturated pool
-        when = rng.choice(['after', 'after', 'before', 'concurrent'])
-        if i % 6 == 5:
-            # fault point: accept() failing (descriptor exhaustion with a client waiting) when the signal arrives
-            states = (states if states != '-' else '') [:3] + 'E'
-            when = 'after'
-        bind = rng.choice(['v4', 'v4', 'any', 'any6'])
-        fits = (0 if states == '-' else len(states)) <= threads
-        lines.append('shutdown %d %s %s %s %d' % (threads, bind, states, when, int(fits)))
-    im = ctx.impl(lines)
-    tlines = ['shutdown_trace ' + (b.split('trace=')[1] if 'trace=' in b else '-') for b in im]
-    m = ctx.model(tlines)
-    ctx.evaluations += len(lines)
+def _judge(ctx, lines, im, m):
     for line, b, a in zip(lines, im, m):
         case = {'line': line}
         ctx.count('when:' + line.split(' ')[4])
@@ -85,6 +62,45 @@ def run(ctx):
             continue
         if line.split(' ')[3] != '-' or ' concurrent' in line:
             ctx.mark_nontrivial(line + f.get('trace', ''))
+
+
+def run(ctx):
+    rng = ctx.rng
+    n = 1500 if ctx.tier == 'thorough' else 48 * ctx.scale
+    lines = []
+    if ctx.replay:
+        lines, n = [ctx.replay['case']['line']], 0
+    for i in range(n):
+        threads = rng.choice([1, 1, 2, 4, 8])
+        k = rng.choice([0, 1, 2, 3, 5, 8, 16])
+        states = ''.join(rng.choice('JIHSLW' if threads > 1 else 'JIHSL') for _ in range(k)) or '-'
+        if i % 7 == 0 and threads <= 2:
+            states = ('L' * (threads + rng.randint(0, 2))) + 'S'          # saturated pool
+        when = rng.choice(['after', 'after', 'before', 'concurrent'])
+        if i % 6 == 5:
+            # fault point: accept() failing (descriptor exhaustion with a client waiting) when the signal arrives
+            states = (states if states != '-' else '') [:3] + 'E'
+            when = 'after'
+        bind = rng.choice(['v4', 'v4', 'any', 'any6'])
+        fits = (0 if states == '-' else len(states)) <= threads
+        lines.append('shutdown %d %s %s %s %d' % (threads, bind, states, when, int(fits)))
+    # scenarios run in batches: a tree on which shutdown hangs makes every scenario wait for its deadline, so once enough
+    # violations are in, the remaining scenarios add nothing but time
+    im, m = [], []
+    BATCH, ENOUGH = 48, 30
+    all_lines, lines = lines, []
+    for off in range(0, len(all_lines), BATCH):
+        chunk = all_lines[off:off + BATCH]
+        cim = ctx.impl(chunk)
+        cm = ctx.model(['shutdown_trace ' + (b.split('trace=')[1] if 'trace=' in b else '-') for b in cim])
+        ctx.evaluations += len(chunk)
+        _judge(ctx, chunk, cim, cm)
+        lines += chunk
+        im += cim
+        m += cm
+        if len(ctx.violations) >= ENOUGH and off + BATCH < len(all_lines):
+            ctx.notes.append('stopped after %d of %d scenarios: %d violations already' % (len(lines), len(all_lines), len(ctx.violations)))
+            break
     # tokio runtime: same scenarios, judged by the observations (return latency, port, in-flight responses)
     if not ctx.replay:
         tl = lines[::2] if ctx.tier != 'thorough' else lines
